@@ -4,6 +4,7 @@ package bridge
 
 import (
 	"bytes"
+	"encoding/hex"
 	"encoding/json"
 	"fmt"
 	"math/big"
@@ -25,20 +26,21 @@ import (
 )
 
 type Spec struct {
-	Prop     string   // C04 | C05 | C06
-	Chains   []string // first chain is the one user sends go to
-	Tokens   []string // subset of FX, usdt, tok
-	Ledger   bool     // C04 oracles
-	Book     bool     // C05 oracles
-	ExtSim   bool     // C06: co-simulated external chain drives claims / heights
-	Calls    bool     // outgoing bridge calls
-	Inbound  bool     // inbound bridge calls to an EOA
-	EVM      bool     // precompile entry points (crossChain from ERC-20, cancel, increase fee)
-	MaxSend  int      // max pool transfers ever created
-	Params   bool     // C06: parameter changes
-	LateExec bool     // an observed bridge-call result stays parked; executing it is a separate, later step
-	Prefill  int      // pool transfers created by the set-up (a pool larger than one batch can hold)
-	Focus    string   // "batches": narrowed alphabet (one sender, two fee shapes, owner cancel, plain batch requests) for deeper batch life-cycle histories
+	Prop       string   // C04 | C05 | C06
+	Chains     []string // first chain is the one user sends go to
+	Tokens     []string // subset of FX, usdt, tok
+	Ledger     bool     // C04 oracles
+	Book       bool     // C05 oracles
+	ExtSim     bool     // C06: co-simulated external chain drives claims / heights
+	Calls      bool     // outgoing bridge calls
+	Inbound    bool     // inbound bridge calls to an EOA
+	EVM        bool     // precompile entry points (crossChain from ERC-20, cancel, increase fee)
+	MaxSend    int      // max pool transfers ever created
+	Params     bool     // C06: parameter changes
+	LateExec   bool     // an observed bridge-call result stays parked; executing it is a separate, later step
+	Prefill    int      // pool transfers created by the set-up (a pool larger than one batch can hold)
+	SendCallTo bool     // inbound bridge calls whose memo is the send-call-to flag (tokens go to the sender's address)
+	Focus      string   // "batches": narrowed alphabet (one sender, two fee shapes, owner cancel, plain batch requests) for deeper batch life-cycle histories
 
 	w               *world.World
 	os              map[string][]scen.Oracle
@@ -50,7 +52,7 @@ type Spec struct {
 }
 
 func (s *Spec) Name() string {
-	return fmt.Sprintf("bridge/%s/%s/%s/calls=%v/in=%v/evm=%v/ext=%v/max=%d/focus=%s/prefill=%d/late=%v", s.Prop, strings.Join(s.Chains, "+"), strings.Join(s.Tokens, "+"), s.Calls, s.Inbound, s.EVM, s.ExtSim, s.MaxSend, s.Focus, s.Prefill, s.LateExec)
+	return fmt.Sprintf("bridge/%s/%s/%s/calls=%v/in=%v/evm=%v/ext=%v/max=%d/focus=%s/prefill=%d/late=%v", s.Prop, strings.Join(s.Chains, "+"), strings.Join(s.Tokens, "+"), s.Calls, s.Inbound, s.EVM, s.ExtSim, s.MaxSend, s.Focus, s.Prefill, s.LateExec) + fmt.Sprintf("/sendcallto=%v", s.SendCallTo)
 }
 
 // ---------------------------------------------------------------- model
@@ -450,6 +452,9 @@ func (s *Spec) Ops(st *explore.State) []explore.Op {
 				ops = append(ops, s.callInFailOp(ch0, t, "u2"))
 			}
 			ops = append(ops, s.callInOp(ch0, t, "u2", "u2"), s.callInOp(ch0, t, "u2", "mallory"))
+			if s.SendCallTo {
+				ops = append(ops, s.callInSendCallToOp(ch0, t, "u2", "u1", false), s.callInSendCallToOp(ch0, t, "u2", "mallory", true))
+			}
 			if len(m.Sink) == 0 && t == s.Tokens[len(s.Tokens)-1] {
 				ops = append(ops, s.callInReentrantOp(ch0, t))
 			}
@@ -944,6 +949,60 @@ func (s *Spec) callInOp(ch, tok, to, refund string) explore.Op {
 		if tk.Kind == "external" {
 			m.Escrow[ch+"/"+tok] -= 2
 		}
+	}}
+}
+
+// callInSendCallToOp: an inbound bridge call whose memo is the send-call-to flag. The external sender has the same 20-byte
+// address as the local account `sender`; the 2 units of tok are delivered to that address (not to the call's target) and the
+// target is called from it. toReverter=false: the target is a plain account, nothing is called, the sender's address holds
+// the tokens. toReverter=true: the target reverts, the tokens go into a refund record for `refund`, nobody's holdings change.
+func (s *Spec) callInSendCallToOp(ch, tok, sender, refund string, toReverter bool) explore.Op {
+	return explore.Op{Name: fmt.Sprintf("BridgeCallInSendCallTo(%s,sender=%s,refund=%s,reverter=%v)", tok, sender, refund, toReverter), Run: func(c *explore.State) {
+		m := c.Model.(*Model)
+		tk := s.toks[tok]
+		m.Nonce[ch]++
+		m.ExtH[ch]++
+		en := m.Nonce[ch]
+		to := s.w.A("u1").Hex()
+		if toReverter {
+			to = s.reverter
+		}
+		claim := &cctypes.MsgBridgeCallClaim{ChainName: ch, EventNonce: en, BlockHeight: m.ExtH[ch], Sender: scen.ExtAddrOfHex(ch, s.w.A(sender).Hex()), Refund: scen.ExtAddrOfHex(ch, s.w.A(refund).Hex()),
+			TokenContracts: []string{tk.Ext[ch]}, Amounts: []sdkmath.Int{sdkmath.NewInt(2)}, To: scen.ExtAddrOfHex(ch, to), Data: "", Value: sdkmath.ZeroInt(), Memo: hex.EncodeToString(cctypes.MemoSendCallTo.Bytes()), TxOrigin: scen.ExtAddr(ch, "origin")}
+		r := scen.Vote(s.w, c.Ctx, ch, s.os[ch][0], claim)
+		if !r.OK() {
+			m.Nonce[ch]--
+			res(c, false)
+			return
+		}
+		s.observeHeightEffects(c, ch, m.ExtH[ch])
+		before := scen.LastBridgeCallID(s.w, c.Ctx, ch)
+		er := s.w.CallABI(c.Ctx, s.w.A("rel"), cctypes.GetAddress(), cctypes.GetABI(), nil, 3_000_000, "executeClaim", ch, new(big.Int).SetUint64(en))
+		res(c, er.Success())
+		if !er.Success() {
+			c.Outcome = "execute-failed"
+			if !(tk.Kind == "external" && m.Escrow[ch+"/"+tok] < 2) && s.Ledger {
+				c.Violate("deposit-credits-receiver", s.sig("inbound-bridge-call-not-executable/send-call-to"), er.String())
+			}
+			return
+		}
+		m.Dep[tok] += 2
+		m.ExtSupply[ch+"/"+tok] -= 2
+		if tk.Kind == "external" {
+			m.Escrow[ch+"/"+tok] -= 2
+		}
+		if !toReverter {
+			m.Hold[sender][tok] += 2
+			return
+		}
+		n := scen.LastBridgeCallID(s.w, c.Ctx, ch)
+		if n != before+1 {
+			c.Violate("failed-inbound-call-is-refunded", s.sig("failing-inbound-bridge-call-created-no-refund-record/send-call-to"), "")
+			return
+		}
+		c.Outcome = "refund-record"
+		oc, _ := scen.Keeper(s.w, ch).GetOutgoingBridgeCallByNonce(c.Ctx, n)
+		m.Calls[n] = &Call{Nonce: n, Chain: ch, Sender: refund, Refund: refund, Toks: map[string]int64{tok: 2}, State: "open", Timeout: oc.Timeout}
 	}}
 }
 
